@@ -11,6 +11,7 @@ Template syntax (units/verus/<unit>.vrs): ordinary lines are copied; `//@` lines
   //@ loop <N>                        following lines: loop spec of the N-th loop of the function
   //@ before `anchor` [#n]            following lines inserted before the line containing anchor
   //@ after `anchor` [#n]             following lines inserted after the line containing anchor
+  //@ private                         drop the `pub` / `pub(crate)` qualifier of the fn (declared, counted)
   //@ canary                          (canary variant only) `assert(false);` at the start of the body
   //@ end
 
@@ -229,6 +230,12 @@ class Unit:
                         raise ExtractError("%s: fn %s: body rewrite %r #%d not found" % (rel, name, old, n))
                     body = body[:idx] + new + body[idx + len(old):]
                     self.count("sub:%s=>%s" % (old, new))
+            elif op == "private":
+                sig2 = re.sub(r"^(\s*)pub(\s*\([^)]*\))?\s+", r"\1", sig, count=1)
+                if sig2 == sig:
+                    raise ExtractError("%s: fn %s: //@ private but no visibility qualifier" % (rel, name))
+                sig = sig2
+                self.count("visibility-dropped")
             elif op == "contract":
                 contract = d["lines"]
             elif op == "top":
